@@ -62,6 +62,12 @@ P == CASE Profile = "c04q" ->
              maxmain |-> 3, nmains |-> 2,
              idirs |-> {<<Iu("inc")>>, <<>>, <<Iu("inc"), Is("ext")>>}, forced |-> {<<>>}, nents |-> 3, plats |-> <<"p1", "p2">>]
 
+\* C18 only: the compiler named by the command (one CBI does not know), an option it does not
+\* model, and a "ghost" database entry (for a file that does not exist) placed before the entry
+CcChoices == IF Profile = "c18" THEN {"gcc", "weirdcc"} ELSE {"gcc"}
+FlagChoices == IF Profile = "c18" THEN {"", "-fweird-option"} ELSE {""}
+GhostChoices == IF Profile = "c18" THEN {FALSE, TRUE} ELSE {FALSE}
+
 Slots == P.slots
 Bodies == P.bodies
 MainStmts == P.stmts
@@ -160,10 +166,12 @@ CloseMain == /\ stage = "main" /\ ns > 0
 
 DefsOf(x) == [m \in Macros |-> IF m = "X" THEN x ELSE "U"]
 AddEntry == /\ stage = "tu" /\ Len(ents) < NEntries
-            /\ \E p \in 1..Len(Plats), mi \in 1..NMains, x \in {"U", "1"}, ids \in IdirChoices, fo \in ForcedChoices :
+            /\ \E p \in 1..Len(Plats), mi \in 1..NMains, x \in {"U", "1"}, ids \in IdirChoices, fo \in ForcedChoices,
+                  cc \in CcChoices, xf \in FlagChoices, gh \in GhostChoices :
                  \* canonical: platforms are used in order, without gaps
                  /\ (IF p = 1 THEN TRUE ELSE \E j \in 1..Len(ents) : ents[j].plat = Plats[p - 1])
-                 /\ ents' = Append(ents, [plat |-> Plats[p], file |-> MainId(mi), x |-> x, idirs |-> ids, forced |-> fo])
+                 /\ ents' = Append(ents, [plat |-> Plats[p], file |-> MainId(mi), x |-> x, idirs |-> ids, forced |-> fo,
+                                          cc |-> cc, xflag |-> xf, ghost |-> gh])
             /\ UNCHANGED <<stage, si, files, cur, ns>>
 
 \* the order in which a compiler searches: -I directories first, then -isystem directories
@@ -205,10 +213,30 @@ RepOut(plats) ==
             /\ UsedUnusedPartition(L)]
 WithReports == Profile = "c06"
 
+\* ---- C18: what must be reported (one warning per occurrence) ---------------------------------
+\* files CBI parses: every code-base file, plus outside files some TU enters
+WarnExpect ==
+  LET R == TLCEval([i \in 1..Len(ents) |-> Run(ents[i])])
+      parsed == {f \in DOMAIN files : files[f].dir # "ext"} \cup
+                {f \in DOMAIN files : \E i \in 1..Len(ents) : \E x \in R[i].attr : x[1] = f}
+      unknown == SumF([f \in parsed |-> Cardinality({i \in 1..Len(files[f].items) : files[f].items[i].k = "unknown"})])
+      inc(form) == SumF([i \in 1..Len(ents) |-> Len(SelectSeq(R[i].warns, LAMBDA w : w.form = form))])
+      user == inc("q") sys == inc("a")
+      ghosts == Cardinality({i \in 1..Len(ents) : ents[i].ghost})
+      ccs == Cardinality({i \in 1..Len(ents) : ents[i].cc # "gcc"})
+      flags == Cardinality({i \in 1..Len(ents) : ents[i].xflag # ""})
+  IN [user |-> user, system |-> sys, unknown |-> unknown, ghost |-> ghosts, compiler |-> ccs, flag |-> flags,
+      total |-> user + sys + unknown + ghosts + ccs + flags,
+      silent |-> (\A i \in 1..Len(ents) : R[i].warns = <<>>) /\ unknown = 0 /\ ghosts = 0 /\ ccs = 0 /\ flags = 0]
+WithWarns == Profile = "c18"
+
 Emit == /\ stage = "tu" /\ Len(ents) = NEntries
         /\ stage' = "done" /\ UNCHANGED <<si, files, cur, ns, ents>>
         /\ (Hash = Shard) =>
-             IF WithReports
+             IF WithWarns
+             THEN PrintT(ToJson([files |-> files, ents |-> ents,
+                            res |-> [i \in 1..Len(ents) |-> Result(ents[i])], warn |-> WarnExpect]))
+             ELSE IF WithReports
              THEN PrintT(ToJson([files |-> files, ents |-> ents,
                             res |-> [i \in 1..Len(ents) |-> Result(ents[i])],
                             rep |-> RepOut(PlatSetOf), rep0 |-> RepOut({})]))
@@ -250,6 +278,14 @@ ExclusionAdditive ==
         /\ Sloc(rest) + Sloc(gone) = Sloc(L)
         /\ \A S \in DOMAIN Tab(L) :
               (IF S \in DOMAIN Tab(rest) THEN Tab(rest)[S] ELSE 0) + (IF S \in DOMAIN Tab(gone) THEN Tab(gone)[S] ELSE 0) = Tab(L)[S]
+
+\* C18 (design level): input that is fully honoured produces no expected warning at all, and the
+\* totals are the sums of the categories
+HonouredIsSilent ==
+  (Ready /\ WithWarns) =>
+     LET w == WarnExpect IN
+     /\ w.total = w.user + w.system + w.unknown + w.ghost + w.compiler + w.flag
+     /\ (w.silent <=> w.total = 0)
 
 OrderIndependent == Ready => \A p \in {Plats[i] : i \in 1..Len(Plats)} :
    PlatformAttrOf(p, [i \in 1..Len(ents) |-> i]) = PlatformAttrOf(p, [i \in 1..Len(ents) |-> Len(ents) + 1 - i])
